@@ -3,7 +3,9 @@
 m=$1; prop=${2:-$(echo $m | cut -c1-3)}; wt=/tmp/mx/try_$m
 git -C /repo worktree add --detach $wt HEAD >/dev/null 2>&1
 git -C $wt apply /verif/seeded/$m/patch.diff || { echo "patch does not apply"; git -C /repo worktree remove --force $wt; exit 2; }
+cp /verif/evidence/$prop.json /tmp/mx/$prop.evidence.bak 2>/dev/null   # the evidence file must keep describing the run on /repo itself
 cd /verif; LARK_REPO=$wt timeout 1500 ./check $prop 2>&1 | grep -v "WARNING\|KNOWN-FINDING" | tail -3 | cut -c1-400
 cp /verif/replays/${prop}_quick_0.json /tmp/mx/$m.replay.json 2>/dev/null
 git -C /repo worktree remove --force $wt
+cp /tmp/mx/$prop.evidence.bak /verif/evidence/$prop.json 2>/dev/null
 /venv/bin/python -W ignore /verif/harness/extract.py >/dev/null 2>&1
